@@ -76,11 +76,6 @@ class IPv4(object):
         It scans a given line and if an IP exists, it obfuscates the IP using _ip2db and returns the altered line
         '''
 
-        def _sub_ip(line, ip):
-            new_ip = self._ip2db(ip)
-            logger.debug("Obfuscating IPv4 - %s > %s", ip, new_ip)
-            return line.replace(ip, new_ip)
-
         def _sub_ip_keep_width(line, ip):
             ip_len = len(ip)
             new_ip = self._ip2db(ip)
@@ -119,13 +114,16 @@ class IPv4(object):
             return line
         try:
             ips = [each[0] for each in re.findall(self.pattern, line)]
-            for ip in sorted(ips or [], key=len, reverse=True):
-                if ip not in self._ignore_list:  # ip must in line
-                    if kwargs.get('width', False):
-                        line = _sub_ip_keep_width(line, ip)
-                    else:
-                        line = _sub_ip(line, ip)
-            return line
+            ips = [ip for ip in sorted(ips, key=len, reverse=True) if ip not in self._ignore_list]
+            if kwargs.get('width', False):
+                for ip in ips:  # ip must in line
+                    line = _sub_ip_keep_width(line, ip)
+                return line
+            # issue the substitutes in the same order as before, then replace
+            # every match in place, in a single pass: a chained str.replace
+            # would also rewrite the substitutes that were just put into the line
+            new_ips = dict((ip, self._ip2db(ip)) for ip in ips)
+            return re.sub(self.pattern, lambda m: new_ips.get(m.group(0), m.group(0)), line)
         except Exception as e:  # pragma: no cover
             logger.warning(e)
             raise Exception('SubIPError: Unable to Substitute IPv4 Address - %s', ips)
